@@ -386,6 +386,14 @@ class DefaultTimes(Lemma):
             nm = nm.replace(":identity", "")
             for idx in range(1, d + 1):
                 o = vc.new(UND + "NthDefaultTimes", list(levels), idx)
+                if not ident:
+                    # history: the SAME object first evaluates another, arbitrary path (any defaults it wants)
+                    # (a path on which every name defaults at the first step: log-ratio 2 a_k - 1 < a_k)
+                    other = np.empty((d, n), dtype=object)
+                    for k in range(d):
+                        for j in range(n):
+                            other[k, j] = 0.0 if j == 0 else j * (2 * levels[k] - 1)
+                    vc.method(o, "_value_log", times, other, other)
                 v = vc.method(o, "_value_log", times, jl, jl)
                 # the idx-th smallest of the single-name default times
                 if ident:
@@ -434,7 +442,12 @@ class DefaultTimes(Lemma):
                 return (vals_id != vals_lg, {"identity": vals_id, "log": vals_lg})
             except Exception as e:
                 return (True, {"levels": levels, "exception": f"{type(e).__name__}: {e}"})
-        vals = [float(und.NthDefaultTimes(levels, k)._value_log(times, jl, jl)) for k in range(1, d + 1)]
+        def after_history(k):
+            o = und.NthDefaultTimes(levels, k)
+            crash = np.cumsum(np.full((d, n), 2 * min(levels) - 1.0), axis=1)       # every name defaults at the first step
+            o._value_log(times, crash, crash)
+            return float(o._value_log(times, jl, jl))
+        vals = [after_history(k) for k in range(1, d + 1)]
         singles = sorted(next((times[i + 1] for i in range(n - 1) if jl[k][i + 1] - jl[k][i] < levels[k]), np.inf) for k in range(d))
         return (vals != singles, {"levels": levels, "log_jump_path": jl.tolist(), "nth_default_times": vals, "sorted_single_name_times": singles})
 
